@@ -27,6 +27,11 @@ Theorem conversion_block_is_the_reviewed_one :
 Proof. exact slice_shape_reviewed. Qed.
 Print Assumptions conversion_block_is_the_reviewed_one.
 
+Theorem mint_branch_is_the_reviewed_one :
+  mint_shape_sha256 = reviewed_mint_shape_sha256 /\ mint_shape_len = reviewed_mint_shape_len.
+Proof. exact mint_shape_reviewed. Qed.
+Print Assumptions mint_branch_is_the_reviewed_one.
+
 (* ---- unit conversion at a fixed rate ---- *)
 
 (* the two rewards that define the rate are positive for every non-negative header field *)
@@ -76,10 +81,11 @@ Theorem denominations_sum_beyond_guard_refuted :
 Proof. exact denominations_truncation_refuted. Qed.
 Print Assumptions denominations_sum_beyond_guard_refuted.
 
-(* MODEL ONLY (the destination loop of Process is not tied to the code, see design/C20.md):
-   minting the split with [gas] left creates at most the value, exactly the value iff it reports
-   success, which it does whenever gas and output index suffice; the loss is explicit. *)
-Theorem mint_loss_bounded_model_only : forall v gas,
+(* destination side (Quai->Qi branch of StateProcessor.Process, sliced and run like the prime block):
+   minting the split with [gas] left (ETX gas minus TxGas) creates at most the value, exactly the
+   value iff it reports success (status Locked), which it does whenever gas and output index
+   suffice; otherwise the loss is exactly the pieces gas/index did not pay for, largest first. *)
+Theorem mint_loss_bounded : forall v gas,
   0 <= v -> v < two64 * top_den -> 0 <= gas ->
   let '(t, i, g, ok) := mint v gas in
   0 <= t <= v /\ 0 <= i <= max_output_index /\ 0 <= g /\ g = gas - i * call_value_transfer_gas /\
@@ -87,7 +93,7 @@ Theorem mint_loss_bounded_model_only : forall v gas,
   (denoms_count (find_min_denominations v) * call_value_transfer_gas <= gas ->
    denoms_count (find_min_denominations v) <= max_output_index -> ok = true).
 Proof. exact mint_spec. Qed.
-Print Assumptions mint_loss_bounded_model_only.
+Print Assumptions mint_loss_bounded.
 
 (* ---- the conversion block of Slice.Append ---- *)
 
